@@ -241,6 +241,10 @@ package getoptions
 //@       && (exists j int :: 0 <= j && j < len(optPair) && Unresolved(N0(), optPair[j].Option))
 //@       ==> $exit && !$returned && currentProgramNode == N0() && isconcat_tail(N0().ChildText, old_iter(N0().ChildText), args, I0())
 //@       && UnkSameIter(N0()) && OthersSameIter(N0()) && OptsSameIter()
+//@     step opt.applied {C01,C05,C06}: forall k string :: Parsing() && LooksLikeOption(Tok()) && !$exit && !$returned && len(optPair) >= 1 && Resolves(N0(), optPair[0].Option, k)
+//@       ==> N0().ChildOptions[k].Called
+//@     step opt.consumed {C03,C05}: Parsing() && LooksLikeOption(Tok()) && !$exit && !$returned && (forall j int :: 0 <= j && j < len(optPair) ==> !Unresolved(N0(), optPair[j].Option))
+//@       ==> eqseq(N0().ChildText, old_iter(N0().ChildText)) && UnkSameIter(N0())
 //@     step opt.once {C03}: Parsing() && LooksLikeOption(Tok()) && !$exit ==> currentProgramNode == N0() && OthersSameIter(N0())
 //@       && (eqseq(N0().ChildText, old_iter(N0().ChildText)) || isappend1(N0().ChildText, old_iter(N0().ChildText), Tok()))
 //@     step opt.kept {C08,C03}: Parsing() && LooksLikeOption(Tok()) && !$exit && len(N0().UnknownOptions) > old_iter(len(N0().UnknownOptions)) && PassOrWarn(N0())
@@ -290,6 +294,9 @@ package getoptions
 //@     invariant pairs.kept {C08,C03}: len(currentProgramNode.UnknownOptions) > old_loop(len(currentProgramNode.UnknownOptions)) && PassOrWarn(currentProgramNode)
 //@       ==> isappend1(currentProgramNode.ChildText, old_loop(currentProgramNode.ChildText), args[old_loop(iterator.idx)])
 //@     invariant pairs.unk: len(currentProgramNode.UnknownOptions) >= old_loop(len(currentProgramNode.UnknownOptions))
+//@     invariant pairs.clean {C03,C05}: (forall j int :: 0 <= j && j <= $idx ==> !Unresolved(currentProgramNode, optPair[j].Option))
+//@       ==> identical(currentProgramNode.ChildText, old_loop(currentProgramNode.ChildText)) && identical(currentProgramNode.UnknownOptions, old_loop(currentProgramNode.UnknownOptions))
+//@     invariant pairs.first {C01,C05,C06}: $idx >= 0 ==> (forall k string :: Resolves(currentProgramNode, optPair[0].Option, k) ==> currentProgramNode.ChildOptions[k].Called)
 //@     invariant pairs.others: forall m *programTree :: allocated(m) && m != currentProgramNode ==> identical(m.ChildText, old_loop(m.ChildText)) && identical(m.UnknownOptions, old_loop(m.UnknownOptions))
 //@     step pair.unknown.stop {C09,C03,C10}: Unresolved(currentProgramNode, p.Option) && currentProgramNode.requireOrder ==> $exit && !$returned
 //@       && isconcat_tail(currentProgramNode.ChildText, old_loop(currentProgramNode.ChildText), args, old_loop(iterator.idx))
